@@ -45,6 +45,7 @@ def main(tier, seed):
     direct_bad, coq_cases, n_runs, by_call, outcomes = [], [], 0, {}, {"raised": 0, "not_injected": 0, "live_read_ok": 0, "live_raises": 0}
     for ci, (hist, op, auto, kind) in enumerate(cases):
         other = ci % 2 == 1
+        iotie.HARDLINK = ci % 3 == 2       # every third case: the database file has a second hard link (a `cp -l` snapshot) when the operation starts
         rec = iotie.recorded_run(tf, str(ck.work / f"rec{ci}"), hist, op, auto, other_fs=other)
         g = dbgen.Gen(seed + ci, {})
         g.ids = 50
@@ -138,7 +139,7 @@ def main(tier, seed):
                     if why is None and isinstance(r["reopened"], tuple):
                         why = f"the database cannot be reopened after the fault ({r['reopened'][1]})"
                     if why and len(direct_bad) < 4:
-                        direct_bad.append({"kind": "failing-input", "why": why, **what, "history": hist, "op": op, "auto_index": auto,
+                        direct_bad.append({"kind": "failing-input", "why": why, **what, "history": hist, "op": op, "auto_index": auto, "database_file_has_a_second_hard_link": iotie.HARDLINK,
                                            "outcome": r["out"], "contents_before": rec["before"], "contents_after_without_fault": rec["after"],
                                            "file_right_after_fault": r["disk_after_fault"], "file_after_close": r["after_close"],
                                            "calls_of_op": [f"{t}.{c}" for _, t, c, _ in rec["events"]]})
@@ -151,7 +152,7 @@ def main(tier, seed):
                 if why is None and isinstance(r["reopened"], tuple):
                     why = f"the database cannot be reopened after the fault ({r['reopened'][1]})"
                 if why and len(direct_bad) < 4:
-                    direct_bad.append({"kind": "failing-input", "why": why, **what, "history": hist, "op": op, "auto_index": auto,
+                    direct_bad.append({"kind": "failing-input", "why": why, **what, "history": hist, "op": op, "auto_index": auto, "database_file_has_a_second_hard_link": iotie.HARDLINK,
                                        "outcome": r["out"], "contents_before": rec["before"], "contents_after_without_fault": rec["after"],
                                        "file_right_after_fault": r["disk_after_fault"], "file_after_close": r["after_close"],
                                        "calls_of_op": [f"{t}.{c}" for _, t, c, _ in rec["events"]]})
